@@ -26,7 +26,9 @@ def setup():
 def replay(path):
     d = json.load(open(path))
     s = d["scenario"]
-    if d.get("recorded_only"):
+    if d.get("exec_case"):
+        trace, runs = run_exec([d["exec_case"]], "replay_" + os.path.basename(path).replace(".json", ""))
+    elif d.get("recorded_only"):
         os.makedirs(os.path.join(WORK, "runs"), exist_ok=True)
         trace = os.path.join(WORK, "runs", "replay_" + os.path.basename(path).replace(".json", "") + ".trace.ndjson")
         with open(trace, "w") as f:
